@@ -31,15 +31,21 @@ SigCases == UNION { { [q |-> q, pre |-> "fresh", act |-> Ctx(k, sg, 0)]
                     : k \in {"Update", "VM", "VNM"} }
 
 PktLists(n) == {<<>>} \cup Lists(PktItems, n)
-HSel == {"eq", "neq", "nocons"}
-HOf(sel) == IF sel = "nocons" THEN 3 ELSE 1
-DHOf(sel) == IF sel = "neq" THEN 2 ELSE HOf(sel)
+\* proof height vs attested height: equal (1 / the latest, 2), attested ABOVE the proof height ("neq": proof 1, attested 2),
+\* attested BELOW a stored proof height ("lt": proof 2, attested 1 -- an older attestation replayed at a later stored
+\* height), attested for a height the client never stored ("ltfar": proof 2, attested 0 resp. "gtfar": proof 1, attested 3),
+\* no consensus state at the proof height
+HSel == {"eq", "eq2", "neq", "lt", "ltfar", "gtfar", "nocons"}
+HOf(sel) == CASE sel = "nocons" -> 3 [] sel \in {"eq2", "lt", "ltfar"} -> 2 [] OTHER -> 1
+DHOf(sel) == CASE sel = "neq" -> 2 [] sel = "lt" -> 1 [] sel = "ltfar" -> 0 [] sel = "gtfar" -> 3 [] OTHER -> HOf(sel)
 VM(sel, pl, pc, v)  == [a |-> "VM", h |-> HOf(sel), sigs |-> Good("packet"), data |-> PacketData(DHOf(sel), pl), pathc |-> pc, val |-> v]
 VNM(sel, pl, pc)    == [a |-> "VNM", h |-> HOf(sel), sigs |-> Good("packet"), data |-> PacketData(DHOf(sel), pl), pathc |-> pc]
 Vals == {"V", "Z", "W", "S31", "E", "L33"}
 DataCases ==
        { [q |-> 2, pre |-> "two", act |-> VM("eq", pl, "P1", v)] : pl \in PktLists(PMAX), v \in Vals }
   \cup { [q |-> 2, pre |-> "two", act |-> VNM("eq", pl, "P1")] : pl \in PktLists(PMAX) }
+  \cup { [q |-> q, pre |-> "two", act |-> VM(sel, <<Pk("P", v)>>, "P1", v)] : q \in Quorums, sel \in HSel, v \in {"V", "Z"} }
+  \cup { [q |-> q, pre |-> "two", act |-> VNM(sel, pl, "P1")] : q \in Quorums, sel \in HSel, pl \in {<<Pk("P", "Z")>>, <<Pk("P", "Z"), Pk("Q", "V")>>} }
   \cup { [q |-> 2, pre |-> "two", act |-> VM(sel, pl, pc, v)] : sel \in HSel, pl \in PktLists(1), pc \in {"P1", "P2", "E"}, v \in Vals }
   \cup { [q |-> 2, pre |-> "two", act |-> VNM(sel, pl, pc)] : sel \in HSel, pl \in PktLists(1), pc \in {"P1", "P2", "E"} }
 
@@ -61,7 +67,8 @@ HAlpha(q) == { [a |-> "Update", sigs |-> Good("state"), data |-> StateData(h, t)
         \cup { [a |-> "Update", sigs |-> <<Sg("a1", "v01", "this", "state")>>, data |-> StateData(2, 1)],
                [a |-> "Update", sigs |-> <<Sg("a1", "v01", "this", "state"), Sg("a1", "v27", "this", "state")>>, data |-> StateData(1, 2)],
                [a |-> "Update", sigs |-> Good("packet"), data |-> PacketData(1, GoodPkts)],
-               Ctx("VM", Good("packet"), 0), Ctx("VNM", Good("packet"), 0) }
+               Ctx("VM", Good("packet"), 0), Ctx("VNM", Good("packet"), 0),
+               VM("lt", GoodPkts, "P1", "V"), VNM("lt", <<Pk("P", "Z")>>, "P1") }
 Hists == { [q |-> q, acts |-> s] : q \in {1, 2}, s \in [1..HLEN -> HAlpha(0)] }
 
 ASSUME PrintT(<<"CASES", Cardinality(Cases), "HISTS", Cardinality(Hists)>>)
